@@ -13,7 +13,7 @@ from vf.ref import visitor as refv
 
 ID = "C11"
 BOUNDS = {
-    "quick": "trees: grammar derivations with <=1 deviation (all definition kinds) + hand trees; every table with 1 scripted decision (7 actions x 2 phases x every node, root included) x 4 visitor styles; all 2-decision tables on hand trees; all ordered pairs of 1-decision non-editing tables in ParallelVisitor (also under TypeInfoVisitor)",
+    "quick": "trees: grammar derivations with <=1 deviation (all definition kinds) + hand trees; every table with 1 scripted decision (8 actions incl. returning the node itself x 2 phases x every node, root included) x 4 visitor styles (kind-specific handlers verify the kind of the node they are given); all 2-decision tables on hand trees; all ordered pairs of 1-decision non-editing tables in ParallelVisitor (also under TypeInfoVisitor)",
     "thorough": "grammar derivations with <=2 deviations; 2-decision tables on all small trees; triples of parallel visitors on hand trees",
 }
 RULE = (
